@@ -2,6 +2,7 @@ package harness
 
 import (
 	"encoding/json"
+	"fmt"
 	"os"
 	"testing"
 	"time"
@@ -54,6 +55,10 @@ func doShrink(t *testing.T, job *Job) {
 		}
 		runs++
 		res, rec := runOne(t, c, rf.RunSeed, tape, true, false)
+		if os.Getenv("DSIM_SHRINK_CHECK") != "" {
+			res2, _ := runOne(t, c.Clone(), rf.RunSeed, tape, true, false)
+			fmt.Fprintf(os.Stderr, "SHRINKCHECK run=%d h1=%s h2=%s steps=%d/%d\n", runs, res.TraceHash, res2.TraceHash, res.Steps, res2.Steps)
+		}
 		hit := false
 		for _, v := range res.Violations {
 			if v.Prop == rf.Property && v.Oracle == rf.Expect.Oracle {
